@@ -1,6 +1,6 @@
 """C18 — MPS round trip (DESIGN §5 C18): the writer emits only what the reader accepts and loses nothing."""
 from .common import *
-from .C17 import literal_table, Sx, SxOracle, sx_paths, sx_loop_paths, sx_calls, sx_walk, sx_strip, sx_str, failure_is_error, FailCase
+from .C17 import literal_table, strip_generic_args, Sx, SxLimit, SxOracle, sx_paths, sx_loop_paths, sx_calls, sx_walk, sx_strip, sx_str, failure_is_error, FailCase
 
 VIEW = 'norm'
 
@@ -50,16 +50,103 @@ def result_errflow(b, local):
     return T.errflow(b, local, none_variant=1 if b.locals[local].lstrip().startswith('std::result::Result') else 0)
 
 
+def template_parts(text):
+    """literal pieces and placeholders (None), in order, of a `format_args!` template constant as exported by the driver
+    (`b"\\x05NAME \\xc0\\x01\\n\\x00"`: length-prefixed pieces, bytes >= 0x80 are placeholders; `"text"`: one piece)"""
+    v = text.strip()
+    if v.startswith('const '): v = v[6:]
+    if v.startswith('b"') and v.endswith('"'):
+        raw = T._unescape_bytes(v[2:-1]); parts = []; i = 0
+        while i < len(raw):
+            n = raw[i]
+            if n >= 0x80: parts.append(None); i += 1
+            elif n == 0: i += 1
+            else: parts.append(bytes(raw[i + 1:i + 1 + n]).decode('utf-8', 'replace')); i += 1 + n
+        return parts
+    if v.startswith('"') and v.endswith('"'): return [bytes(T._unescape_bytes(v[1:-1])).decode('utf-8', 'replace')]
+    return []
+
+
 def fmt_records(p):
-    """what a symbolic path writes: (string literals, displayed values, block) per write_fmt"""
+    """what a symbolic path writes: (template constants, displayed values in argument order, block) per write_fmt"""
     out = []
     for e in p.events:
         if e[0] == 'call' and e[1] in ('write_fmt', 'write_all', 'write_str') and len(e[3]) >= 2:
-            a = e[3][1]
-            vals = [sx_strip(c[3][0]) for c in sx_calls(a) if c[1] in ('new_display', 'new_debug', 'new_lower_exp', 'new_upper_exp') and c[3]]
-            lits = [x[1] for x in sx_walk(a) if x[0] == 'const' and (x[1].startswith('b"') or x[1].startswith('"'))]
+            a = sx_strip(e[3][1]); vals = None
+            if a[0] == 'call' and 'fmt::Arguments' in a[2] and a[3]:
+                lits = [x[1] for x in sx_walk(a[3][0]) if x[0] == 'const' and (x[1].startswith('b"') or x[1].startswith('"'))]
+                arr = sx_strip(a[3][1]) if len(a[3]) > 1 else None
+                if arr is not None and arr[0] == 'agg':
+                    vals = [sx_strip(c[3][0]) if c[0] == 'call' and c[1].startswith('new_') and c[3] else c for c in (sx_strip(x) for x in arr[3])]
+                elif arr is None: vals = []
+            else:
+                # raw bytes (`out.write_all(b"ROWS..")`): one literal piece
+                lits = [x[1][1:] if x[1].startswith('b"') else x[1] for x in sx_walk(a) if x[0] == 'const' and (x[1].startswith('b"') or x[1].startswith('"'))]
+                if e[1] != 'write_fmt': vals = []
+            if vals is None:
+                vals = [sx_strip(c[3][0]) for c in sx_calls(a) if c[1] in ('new_display', 'new_debug', 'new_lower_exp', 'new_upper_exp') and c[3]]
             out.append((lits, vals, e[4]))
     return out
+
+
+UNKNOWN = '\x00'      # stands for a displayed value that is not a string constant
+
+
+def record_text(lits, vals):
+    """the text of one record: the template with the displayed string constants filled in, UNKNOWN for every other value.  A keyword
+    reads the same whether it is part of the template or passed as an argument"""
+    parts = template_parts(lits[0]) if lits else []
+    def shown(v):
+        v = sx_strip(v)
+        return v[1][1:-1] if v[0] == 'const' and re.fullmatch(r'"[^"\\\\]*"', v[1]) else UNKNOWN
+    holes = sum(1 for x in parts if x is None)
+    fill = [shown(v) for v in vals] if holes == len(vals) else [UNKNOWN] * holes
+    return ''.join(fill.pop(0) if x is None else x for x in parts)
+
+
+def displayed_consts(vals):
+    return {sx_strip(v)[1].strip('"') for v in vals if sx_strip(v)[0] == 'const' and sx_strip(v)[1].startswith('"')}
+
+
+def in_writer(cb):
+    return cb.kind == 'fn' and cb.name.startswith('mps::to_mps::')
+
+
+class WritesSucceed(SxOracle):
+    def variant(self, sx, v, st):
+        return 'Ok' if v[0] == 'call' and v[1] in ('write_fmt', 'write_all', 'write_str') else None
+
+
+def written_texts(ctx, b):
+    """(texts, string constants that were displayed) over the symbolic paths of writer function `b`, its writer helpers looked
+    through; None when the function has too many paths"""
+    for enter in (in_writer, None):
+        try:
+            ps = Sx(ctx, b, WritesSucceed(), enter=enter, max_paths=600).run()
+        except (SxLimit, RecursionError):
+            continue
+        texts = set(); shown = set()
+        for p in ps:
+            for lits, vals, bi in fmt_records(p):
+                texts.add(record_text(lits, vals))
+                if lits and sum(1 for x in template_parts(lits[0]) if x is None) == len(vals): shown |= displayed_consts(vals)      # (filled in above)
+        return texts, shown
+    return None
+
+
+HEADERS = ['NAME', 'OBJSENSE', 'ROWS', 'COLUMNS', 'RHS', 'RANGES', 'BOUNDS', 'ENDATA']      # order of the format
+
+
+def headers_in(text):
+    return [k for k in re.findall(r'^([A-Z]+)\b', text, re.M) if k in HEADERS]
+
+
+def section_writer(W, header):
+    """the writer function whose own templates write the section header `header`: the section's function, or its caller when the
+    function has been inlined there (a helper of its own that only writes the header line counts as well)"""
+    hits = [b for n, b in sorted(W.items()) if b.kind == 'fn' and any(header in headers_in(p) for p in templates_of(b))]
+    # (an extracted helper is part of its caller in the normal form: the caller is the larger one)
+    return max(hits, key=lambda b: len(b.blocks)) if hits else None
 
 
 def reader_tables(ctx):
@@ -99,8 +186,9 @@ def schema_no(ctx, enum, variant):
     return {v['name']: v['discr'] for v in a['variants']}.get(variant) if a else None
 
 
-def shown_consts(recs, pattern):
-    return sorted({sx_strip(v)[1].strip('"') for lits, vals, bi in recs for v in vals if sx_strip(v)[0] == 'const' and re.fullmatch(pattern, sx_strip(v)[1])})
+def shown_keywords(recs, pattern):
+    """keywords (group 1 of `pattern`) in the text of the records"""
+    return sorted({m.group(1) for lits, vals, bi in recs for m in re.finditer(pattern, record_text(lits, vals), re.M)})
 
 
 def magic_rules(ctx, W):
@@ -108,7 +196,7 @@ def magic_rules(ctx, W):
     each value of the field (`match x { 2 => .. }` ≡ `if x == 2` ≡ `matches!(x, 2)`)"""
     R = 'C18.magic'
     # sense: Maximize => MAX, everything else MIN
-    b = W.get('mps::to_mps::write_beginning')
+    b = section_writer(W, 'OBJSENSE')
     if b is None: ctx.lost(R + '/sense', 'write_beginning')
     else:
         ctx.fn(b); maxno = schema_no(ctx, 'v1::instance::Sense', 'Maximize'); got = {}
@@ -124,7 +212,7 @@ def magic_rules(ctx, W):
         ok = maxno is not None and all(got[k] == (['Max'] if k == maxno else ['Min']) for k in got)
         ctx.check(ok, R + '/sense', 'T-CONST', b.name, 'OBJSENSE written per value of instance.sense is %s; the schema number of SENSE_MAXIMIZE is %s' % (got, maxno), b.site())
     # equality: LessThanOrEqualToZero => "L" else "E"
-    b = W.get('mps::to_mps::write_rows')
+    b = section_writer(W, 'ROWS')
     if b is None: ctx.lost(R + '/equality', 'write_rows')
     else:
         ctx.fn(b); leno = schema_no(ctx, 'v1::Equality', 'LessThanOrEqualToZero'); got = {}
@@ -132,34 +220,44 @@ def magic_rules(ctx, W):
         for k in range(0, 4) if loops else ():
             ps = sx_loop_paths(ctx, R + '/equality', 'T-CONST', b, WriterCase({('v1::Constraint', 'equality'): k}), loops[0])
             if ps is None: return
-            got[k] = sorted({x for p in ps if p.end == 'stop' for x in shown_consts(fmt_records(p), r'"[A-Z]"')})
+            got[k] = sorted({x for p in ps if p.end == 'stop' for x in shown_keywords(fmt_records(p), r'^[ \t]+([A-Z])[ \t]')})
         ok = bool(got) and leno is not None and all(got[k] == (['L'] if k == leno else ['E']) for k in got)
         ctx.check(ok, R + '/equality', 'T-CONST', b.name, 'row kind written per value of constraint.equality is %s; the schema number of LESS_THAN_OR_EQUAL_TO_ZERO is %s' % (got, leno), b.site())
     # kind: {BINARY, INTEGER} => integer markers  (LI / UI: see bounds_rules)
     want = {schema_no(ctx, 'v1::decision_variable::Kind', 'Binary'), schema_no(ctx, 'v1::decision_variable::Kind', 'Integer')}
-    b = W.get('mps::to_mps::write_columns')
+    b = section_writer(W, 'COLUMNS')
     if b is None: ctx.lost(R + '/kind/write_columns', 'write_columns')
     else:
         ctx.fn(b); got = {}
-        loops = sorted([lo for lo in loops_over(ctx, b, 'v1::Instance', 'decision_variables') if any(c.bb in lo[4] and c.item == 'intorg' for c in b.calls)], key=lambda lo: -len(lo[4]))
+        # the marker lines written while one variable is processed, whatever state the block tracker is in: 'INTORG' may only be
+        # written for an integer / binary variable, 'INTEND' only for another one (the tracker's helpers are looked through, so
+        # `intorg()` / `intend()`, one `set_integer(bool)`, or the test written out in the loop are the same)
+        def not_entry(cb): return in_writer(cb) and cb.hdr.get('item') != 'write_col_entry'
+        loops = sorted(loops_over(ctx, b, 'v1::Instance', 'decision_variables'), key=lambda lo: -len(lo[4]))
         for k in range(0, 5) if loops else ():
-            ps = sx_loop_paths(ctx, R + '/kind/write_columns', 'T-CONST', b, WriterCase({('v1::DecisionVariable', 'kind'): k}), loops[0])
+            ps = sx_loop_paths(ctx, R + '/kind/write_columns', 'T-CONST', b, WriterCase({('v1::DecisionVariable', 'kind'): k}), loops[0], enter=not_entry)
             if ps is None: return
-            got[k] = sorted({e[1] for p in ps if p.end == 'stop' for e in p.events if e[0] == 'call' and e[1] in ('intorg', 'intend')})
-        ok = bool(got) and None not in want and all(got[k] == (['intorg'] if k in want else ['intend']) for k in got)
-        ctx.check(ok, R + '/kind/write_columns', 'T-CONST', b.name, 'integer markers per value of kind are %s; the schema numbers of BINARY/INTEGER are %s' % (got, sorted(x for x in want if x is not None)), b.site())
+            got[k] = sorted({m for p in ps if p.end == 'stop' for m in shown_keywords(fmt_records(p), r"'(INT[A-Z]+)'")})
+        ok = bool(got) and None not in want and all(got[k] == (['INTORG'] if k in want else ['INTEND']) for k in got)
+        ctx.check(ok, R + '/kind/write_columns', 'T-CONST', b.name, 'integer markers written per value of kind are %s; the schema numbers of BINARY/INTEGER are %s' % (got, sorted(x for x in want if x is not None)), b.site())
 
 
 def keyword_rules(ctx, W):
     R = 'C18.keywords'
     tabs = reader_tables(ctx)
     accepted = set().union(*tabs.values())
-    emitted = {}
+    emitted = {}; texts = {}
     for name, b in W.items():
+        # every literal piece of a template is written as it stands; a string constant counts where it is displayed (in the text of
+        # the record it is part of, helpers looked through) -- one that is never seen displayed counts as a keyword of its own
         toks = []
         for p in templates_of(b):
             toks += re.findall(r"'?[A-Z][A-Z0-9]*'?", p)
-        toks += str_consts_of(b)
+        wt = written_texts(ctx, b) if b.kind == 'fn' else None
+        texts[name] = wt[0] if wt else None
+        for t in (wt[0] if wt else ()):
+            toks += re.findall(r"'?[A-Z][A-Z0-9]*'?", t)
+        toks += [c for c in str_consts_of(b) if not (wt and c in wt[1])]
         for t in toks:
             emitted.setdefault(t, set()).add(name.split('::')[-1])
     disp = ctx.F.one('mps::parser::ObjSense', 'fmt', trait='Display')
@@ -173,20 +271,25 @@ def keyword_rules(ctx, W):
             ctx.ok(R + '/label/' + tok, 'T-TABLE', 'mps::to_mps'); continue
         ctx.check(tok in accepted, R + '/accepted/' + tok, 'T-TABLE', 'mps::to_mps::' + sorted(where)[0], 'the writer emits keyword `%s` (in %s) which the reader does not accept' % (tok, sorted(where)), 'rust/ommx/src/mps/to_mps.rs')
     # per class: what is written in a given position is in the reader's table for that position
-    b = W.get('mps::to_mps::write_bounds')
+    # (read off the text of the records: a kind written as part of the template or passed as an argument is the same)
+    def kinds_written(b, pattern):
+        tx = texts.get(b.name)
+        if tx is None: return set(str_consts_of(b)) | {t for p in templates_of(b) for t in re.findall(pattern, p, re.M)}
+        return {t for x in tx for t in re.findall(pattern, x, re.M)}
+    b = section_writer(W, 'BOUNDS')
     if b is not None:
-        bt = set(str_consts_of(b))
+        bt = kinds_written(b, r'^[ \t]+([A-Z]{2})[ \t]')
         ctx.check(bt <= tabs['bounds'] and bool(bt), R + '/bound-kinds', 'T-TABLE', b.name, 'bound kinds written %s, reader accepts %s' % (sorted(bt), sorted(tabs['bounds'])), b.site())
-    b = W.get('mps::to_mps::write_rows')
+    b = section_writer(W, 'ROWS')
     if b is not None:
-        rk = set(str_consts_of(b)) | {t for p in templates_of(b) for t in re.findall(r'^ ([A-Z]) ', p)}
+        rk = kinds_written(b, r'^[ \t]+([A-Z])[ \t]')
         ctx.check(rk <= tabs['rows'] and {'L', 'E'} <= rk, R + '/row-kinds', 'T-TABLE', b.name, 'row kinds written %s, reader accepts %s' % (sorted(rk), sorted(tabs['rows'])), b.site())
         # the objective row is written under the shared OBJ_NAME
         objn = ctx.F.consts.get('mps::to_mps::OBJ_NAME', (None, ''))[1].strip('"')
         nrows = [t for p in templates_of(b) for t in re.findall(r' N (\w+)', p)]
         ctx.check(nrows == [objn] and bool(objn), 'C18.ids/objective-row-name', 'T-CONST', b.name, 'the N row is written as %s but the shared objective name is %r' % (nrows, objn), b.site())
-    for fn in ('write_columns', 'write_rhs'):
-        b = W.get('mps::to_mps::' + fn)
+    for fn, h in (('write_columns', 'COLUMNS'), ('write_rhs', 'RHS')):
+        b = section_writer(W, h)
         if b is None: continue
         wb = ctx.S.whole_body(b.name, 3)
         proms = [ctx.S.whole_body(n, 2) for n in ctx.F.bodies if n.startswith(b.name + '::promoted[')]
@@ -225,7 +328,7 @@ def linear_rules(ctx, W):
                 d = dict(zip(x[2], x[3]))
                 return 'name' in d and 'degree' in d and any(y == ('param', 3) for y in sx_walk(d['name'])) and any(c[1] == 'degree' and any(y == ('param', 4) for y in sx_walk(c)) for c in sx_calls(d['degree']))
             ctx.check(bool(errs) and all(ok(x) for x in errs), R + '/error-names-offender', 'T-CARRY', b.name, 'InvalidConstraintType does not carry the row name and the degree', b.site())
-    b = W.get('mps::to_mps::write_columns')
+    b = section_writer(W, 'COLUMNS')
     if b is not None:
         # objective entry goes through write_col_entry with OBJ_NAME and its error is re-labelled as InvalidObjectiveType
         wc = [c for c in b.calls if c.item == 'write_col_entry']
@@ -339,7 +442,7 @@ class RhsCase(SxOracle):
 def rhs_rules(ctx, W):
     """the RHS section carries minus the constant of the objective (under the objective row) and of every constraint; only an
     exact zero may be left out"""
-    b = W.get('mps::to_mps::write_rhs')
+    b = section_writer(W, 'RHS')
     if b is None: return
     R = 'C18.rhs'
     loops = [lo for lo in loops_over(ctx, b, 'v1::Instance', 'constraints') if any(c.bb in lo[4] and c.item == 'as_linear' for c in b.calls)]
@@ -384,7 +487,7 @@ def bounds_rules(ctx, W):
     with its documented meaning ((-inf, inf), [0, 1] for binaries), never left to the MPS default; decided on the records written
     for each combination of kind and bound"""
     R = 'C18.bounds'
-    b = W.get('mps::to_mps::write_bounds')
+    b = section_writer(W, 'BOUNDS')
     if b is None:
         ctx.lost(R, 'write_bounds'); return
     ctx.fn(b)
@@ -410,7 +513,7 @@ def bounds_rules(ctx, W):
                     n += 1
                     recs = []
                     for lits, vals, bi in fmt_records(p):
-                        kws = shown_consts([(lits, vals, bi)], r'"[A-Z]{2}"'); nums = [x for x in (sx.conc(v, p) for v in vals) if isinstance(x, float)]
+                        kws = shown_keywords([(lits, vals, bi)], r'^[ \t]+([A-Z]{2})[ \t]'); nums = [x for x in (sx.conc(v, p) for v in vals) if isinstance(x, float)]
                         if kws or nums: recs.append((kws[0] if kws else None, nums[0] if nums else None, any(sx_calls(v, 'dvar_name') for v in vals)))
                     if len(recs) != 2 or not all(nm for kw, x, nm in recs): count.append('%s: records %s' % (case, recs))
                     for what, val in (('upper', up_), ('lower', lo_)):
@@ -472,6 +575,63 @@ def ids_rules(ctx, W):
         ctx.check(ok, R + '/parse_id_tag/strips-then-parses', 'T-CARRY', pb.name, 'id is not parsed from the name after the prefix', pb.site())
 
 
+class SectionsWritten(SxOracle):
+    """the writes and the writer functions selected by `ok` succeed"""
+    def __init__(self, ok): self.ok = ok
+
+    def variant(self, sx, v, st):
+        return 'Ok' if v[0] == 'call' and self.ok(v) else None
+
+
+def section_rules(ctx, W, wm):
+    """on every successful path of write_mps the sections NAME, OBJSENSE, ROWS, COLUMNS, RHS, BOUNDS, ENDATA are written in the order
+    of the format, and a failure while writing one of them is the function's failure.  Decided on the header lines that reach the
+    output along the paths: a section written by its own function (whose header lines are read off that function), by a function
+    with another name, or in place in write_mps is the same; so are `?`, `and_then` chains and a tail expression returning the
+    last Result."""
+    R = 'C18.sections'
+    names = {strip_generic_args(n).split('::')[-1]: b for n, b in W.items() if b.kind == 'fn' and b is not wm}
+    def is_writer_call(v): return v[1] in names and 'mps::to_mps::' in v[2]
+    def is_write(v): return v[1] in ('write_fmt', 'write_all', 'write_str')
+    # header lines of each writer function called from write_mps (loops entered at most once: headers are not written in loops)
+    heads = {}
+    def heads_of(fn):
+        if fn not in heads:
+            heads[fn] = None
+            try:
+                ps = Sx(ctx, names[fn], SectionsWritten(lambda v: is_write(v) or is_writer_call(v)), max_visits=1, max_paths=400).run()
+                sx = Sx(ctx, names[fn]); seqs = set()
+                for p in ps:
+                    if p.end == 'return' and p.value is not None and sx.variant(p.value, p) != 'Err':
+                        seqs.add(tuple(h for e in p.events for h in event_heads(e)))
+                if len(seqs) == 1: heads[fn] = list(seqs.pop())
+            except (SxLimit, RecursionError):
+                pass
+        return heads[fn]
+    def event_heads(e):
+        if e[0] != 'call': return []
+        if is_write(e) and len(e[3]) >= 2:
+            class P: events = [e]
+            return [h for lits, vals, bi in fmt_records(P) for h in headers_in(record_text(lits, vals))]
+        if is_writer_call(e):
+            hs = heads_of(e[1])
+            return hs if hs is not None else ['?' + e[1]]
+        return []
+    ps = sx_paths(ctx, R + '/order', 'T-BRANCHFX', wm, SectionsWritten(lambda v: False))
+    if ps is None: return
+    sx = Sx(ctx, wm, SxOracle())
+    oks = [[h for e in p.events for h in event_heads(e)] for p in ps if p.end == 'return' and p.value is not None and sx.variant(p.value, p) != 'Err']       # Ok, or the Result of the last write returned as it is
+    want = [h for h in HEADERS if h != 'RANGES']
+    for h in want:
+        # what writes the header: a call of a writer function, or a write in write_mps itself
+        def site(v, h=h): return v[0] == 'call' and h in event_heads(('call', v[1], v[2], v[3], v[4], None))
+        res = failure_is_error(ctx, R + '/' + h, 'T-MUSTCALL', wm, site, 'Err')
+        if res is None: continue
+        ctx.check(bool(oks) and all(h in o for o in oks) and res[0] >= 1 and not res[1], R + '/' + h, 'T-MUSTCALL', wm.name,
+                  'section %s is not written on every successful path with the error of writing it propagated (%s)' % (h, '; '.join(res[1][:2]) or 'sections written: %s' % (oks[:1] or 'none')), wm.site())
+    ctx.check(bool(oks) and all([h for h in o if h != 'RANGES'] == want for o in oks), R + '/order', 'T-BRANCHFX', wm.name, 'sections are written in the order %s, the format has %s' % (oks[:1] or 'none', want), wm.site())
+
+
 # the round trip reads the written text back through the MPS reader and converter
 RELIES_ON = {'C17': ['C17']}
 
@@ -483,19 +643,7 @@ def check(ctx):
     for b in W.values(): ctx.fn(b)
     magic_rules(ctx, W); keyword_rules(ctx, W); linear_rules(ctx, W); rhs_rules(ctx, W); bounds_rules(ctx, W); ids_rules(ctx, W)
     wm = W.get('mps::to_mps::write_mps')
-    if wm is not None:
-        # on every successful path all five sections are written, in the order of the format, and a section's error is the
-        # function's error -- decided on paths (`?`, `and_then` chains, a tail expression returning the last Result: the same)
-        secs = ['write_beginning', 'write_rows', 'write_columns', 'write_rhs', 'write_bounds']
-        ps = sx_paths(ctx, 'C18.sections/order', 'T-BRANCHFX', wm, SxOracle())
-        if ps is not None:
-            sx = Sx(ctx, wm, SxOracle())
-            oks = [[e[1] for e in p.events if e[0] == 'call' and e[1] in secs] for p in ps if p.end == 'return' and p.value is not None and sx.variant(p.value, p) != 'Err']       # Ok, or the Result of the last write returned as it is
-            for fn in secs:
-                res = failure_is_error(ctx, 'C18.sections/' + fn, 'T-MUSTCALL', wm, lambda v, fn=fn: v[1] == fn, 'Err')
-                if res is None: continue
-                ctx.check(bool(oks) and all(fn in o for o in oks) and res[0] >= 1 and not res[1], 'C18.sections/' + fn, 'T-MUSTCALL', wm.name, 'no call `%s(instance, out)` on every successful path with its error propagated' % fn, wm.site())
-            ctx.check(bool(oks) and all(o == secs for o in oks), 'C18.sections/order', 'T-BRANCHFX', wm.name, 'sections are written in the order %s' % (oks[:1] or 'none'), wm.site())
+    if wm is not None: section_rules(ctx, W, wm)
     # decided instances per family on the unchanged tree
-    for fam, n in {'C18.magic': 4, 'C18.keywords': 26, 'C18.linear': 8, 'C18.bounds': 8, 'C18.ids': 9, 'C18.sections': 6, 'C18.rhs': 3, 'C18.columns': 7}.items():
+    for fam, n in {'C18.magic': 4, 'C18.keywords': 26, 'C18.linear': 8, 'C18.bounds': 8, 'C18.ids': 9, 'C18.sections': 8, 'C18.rhs': 3, 'C18.columns': 7}.items():
         ctx.floor(fam, n)
